@@ -1229,10 +1229,19 @@ func (s *Server) subscriptionsListen(ctx context.Context, req *SubscriptionsList
 	}
 	s.mu.Unlock()
 	defer func() {
+		// Remove only what this listen registered: the session may have other
+		// listens open (for example the client's list-changed listen next to a
+		// per-URI one), and their subscriptions must outlive this request.
 		s.mu.Lock()
-		delete(s.toolChangeSubscriptions, req.Session)
-		delete(s.promptChangeSubscriptions, req.Session)
-		delete(s.resourceChangeSubscriptions, req.Session)
+		if s.toolChangeSubscriptions[req.Session] == requestID {
+			delete(s.toolChangeSubscriptions, req.Session)
+		}
+		if s.promptChangeSubscriptions[req.Session] == requestID {
+			delete(s.promptChangeSubscriptions, req.Session)
+		}
+		if s.resourceChangeSubscriptions[req.Session] == requestID {
+			delete(s.resourceChangeSubscriptions, req.Session)
+		}
 		s.mu.Unlock()
 	}()
 
